@@ -87,52 +87,62 @@ def main():
                 f.write(TEMPLATE.format(producer_def=producer_def, helper_body=helper_body, root_body=root_body, produce_call=produce_call, read_import=read_import, load_name=load_name))
             m = importlib.import_module(name)
             dds.accept_module(m)
-            dds.set_store("memory")
-            tag = "producer=%s placement=%s producer-%s%s" % (prod_kind, placement, when, "" if style == "module" else " (the reader does `%s` inside its body)" % read_import)
-            results = []
-            if when == "after_populated":
-                # the path was committed by an earlier evaluation; then a dependency of the producer is edited
-                m.V = 0
-                dds.eval(m.only_producer)
-            for v in (1, 2):
-                m.V = v
-                evals += 1
-                if when == "earlier":
+            kinds_ = ["memory"]
+            if style == "module" and prod_kind in ("keep", "data_function") and placement in ("top", "kept") and when in ("before", "earlier"):
+                kinds_ += ["memory+cache", "local+cache"]  # the object cache in front of a store, same object through the whole history
+            for sk in kinds_:
+                if sk == "memory":
+                    dds.set_store("memory")
+                elif sk == "memory+cache":
+                    dds.set_store("memory", cache_objects=2)
+                else:
+                    sd = os.path.join(d, "store_%d" % n)
+                    dds.set_store("local", internal_dir=os.path.join(sd, "int"), data_dir=os.path.join(sd, "data"), cache_objects=2)
+                tag = "producer=%s placement=%s producer-%s%s%s" % (prod_kind, placement, when, "" if style == "module" else " (the reader does `%s` inside its body)" % read_import, "" if sk == "memory" else " [store: %s]" % sk)
+                results = []
+                if when == "after_populated":
+                    # the path was committed by an earlier evaluation; then a dependency of the producer is edited
+                    m.V = 0
                     dds.eval(m.only_producer)
-                m.CALLS.clear()
-                try:
-                    r = dds.eval(m.root)
-                except DDSException as e:
-                    r = "DDSError"
-                except BaseException as e:
-                    r = "<%s: %s>" % (type(e).__name__, str(e)[:60])
-                results.append((r, list(m.CALLS)))
-            if when in ("before", "earlier"):
-                want = ["read:P1", "read:P2"]
-            else:
-                want = ["DDSError", "DDSError"]
-            got = [r for r, _ in results]
-            if len(samples) < 3:
-                samples.append({"case": tag, "results": got})
-            if got != want:
-                cls = None
-                if when == "after" and all(isinstance(g, str) and (g.startswith("read:") or g.startswith("<")) for g in got):
-                    cls = "read_before_produce_not_rejected"
-                if style in ("local_import_as", "local_from_import"):
-                    # a name bound by an import statement inside the function body (other than the module's own name) is
-                    # not resolvable by the analysis: the load is invisible to it
-                    cls = "load_through_function_local_import_alias"
-                note(cls, "%s: results for V=1, V=2 are %r, expected %r" % (tag, got, want))
-            elif placement == "kept" and when in ("before", "earlier"):
-                # the kept reader must re-run when the path serves another result, and be served from the store otherwise
-                m.CALLS.clear()
-                dds.eval(m.root)
-                if "reader" in m.CALLS:
-                    note(None, "%s: unchanged pipeline re-executed the kept reader" % tag)
+                for v in (1, 2, 1):  # the last step goes back to an earlier state: the path must follow
+                    m.V = v
+                    evals += 1
+                    if when == "earlier":
+                        dds.eval(m.only_producer)
+                    m.CALLS.clear()
+                    try:
+                        r = dds.eval(m.root)
+                    except DDSException as e:
+                        r = "DDSError"
+                    except BaseException as e:
+                        r = "<%s: %s>" % (type(e).__name__, str(e)[:60])
+                    results.append((r, list(m.CALLS)))
+                if when in ("before", "earlier"):
+                    want = ["read:P1", "read:P2", "read:P1"]
+                else:
+                    want = ["DDSError", "DDSError", "DDSError"]
+                got = [r for r, _ in results]
+                if len(samples) < 3:
+                    samples.append({"case": tag, "results": got})
+                if got != want:
+                    cls = None
+                    if when == "after" and all(isinstance(g, str) and (g.startswith("read:") or g.startswith("<")) for g in got):
+                        cls = "read_before_produce_not_rejected"
+                    if style in ("local_import_as", "local_from_import"):
+                        # a name bound by an import statement inside the function body (other than the module's own name) is
+                        # not resolvable by the analysis: the load is invisible to it
+                        cls = "load_through_function_local_import_alias"
+                    note(cls, "%s: results for V=1, V=2, V=1 are %r, expected %r" % (tag, got, want))
+                elif placement == "kept" and when in ("before", "earlier"):
+                    # the kept reader must re-run when the path serves another result, and be served from the store otherwise
+                    m.CALLS.clear()
+                    dds.eval(m.root)
+                    if "reader" in m.CALLS:
+                        note(None, "%s: unchanged pipeline re-executed the kept reader" % tag)
     finally:
         sys.path.remove(d)
         shutil.rmtree(d, ignore_errors=True)
-    print(json.dumps({"scope": "2 producer kinds x 4 load placements x 5 producer positions x history (V=1 fresh, V=2 populated) + 8 cases where the producing function is kept under two paths + 18 cases where the reader imports dds inside its body (import / import as / from import)", "evaluations": evals, "distinct_nontrivial": n, "exhaustive": True,
+    print(json.dumps({"scope": "2 producer kinds x 4 load placements x 5 producer positions x history (V=1 fresh, V=2 populated, V=1 again) on the memory store; the 16 module-level before / earlier cases also behind the object cache (memory, local) + 8 cases where the producing function is kept under two paths + 18 cases where the reader imports dds inside its body (import / import as / from import)", "evaluations": evals, "distinct_nontrivial": n, "exhaustive": True,
                       "rule": "one case per (producer kind, placement, position); each evaluated twice with a changed dependency", "samples": samples, "violations": violations,
                       "known_hits": ["bounded:%s (%d cases, e.g. %s)" % (c, len(w), w[0][:170]) for c, w in sorted(known.items())]}))
 
